@@ -56,7 +56,7 @@ def gen_case(rng, k):
         starts = [n.lineno for n in ast.parse(src).body]
         first = len(ast.parse(gen_prog.PRELUDE).body)
         slots = starts[first:] + [len(src.splitlines()) + 1]
-        steps = sorted(((rng.choice(slots), rng.choice(["A", "B", "off", "off"])) for _ in range(rng.choice([1, 2, 3, 4]))), key=lambda x: x[0])
+        steps = sorted(((rng.choice(slots), rng.choice(["A", "B", "off", "off", "ext:off", "ext:A", "ext:B"])) for _ in range(rng.choice([1, 2, 3, 4]))), key=lambda x: x[0])
         lines = src.splitlines()
         for ln, what in reversed(steps):
             lines.insert(ln - 1, "tp_step(%r)" % what)
@@ -222,7 +222,8 @@ def run(ctx, model_ok):
                 "2-3 generated statements with calls, loops, try/except, raises) x all 15 non-empty subsets of {call,line,return,exception} in rotation x "
                 "{no third-party, returns itself, returns a distinct local function, declines frames named g*} x {installed before, installed mid-run by "
                 "user code, a history of 1-4 sys.settrace(A) / sys.settrace(B) / sys.settrace(None) calls between the program's top-level statements with or without A "
-                "pre-installed (oracle: logs of A and B and sys.gettrace() afterwards equal the run without pyccolo)}; every case has >= 60 interpreter events",
+                "pre-installed, some of them made while a frame of a file the tracer does not accept is running, which the third-party functions follow too "
+                "(oracle: logs of A and B and sys.gettrace() afterwards equal the run without pyccolo)}; every case has >= 60 interpreter events",
         "samples": [{k: cases[0][k] for k in ("events", "third_party", "install")}], "traces_validated": validated,
         "distribution": {"third_party/install": hist, "interpreter_events_recorded": nev,
                          "programs_ending_in_exception": sum(1 for r in impl if "plain" in r and "exc" in r["plain"]["out"])},
